@@ -620,6 +620,9 @@ def gen_record(rng, crit, opts=None):
                 rec[f] = bool(v)
             elif kind == "negzero" and v == 0.0:
                 rec[f] = -0.0
+    if opts.get("big_ints") and rng.chance(opts["big_ints"]):
+        # a 64-bit identifier / nanosecond time stamp: an integer no double can hold exactly
+        rec[rng.pick(["x", "y"])] = rng.pick([2 ** 53 + 1, 1700000000000000001, -(2 ** 60) - 7])
     col = RECORD_KNOBS.get("int_column")
     if col and opts.get("exotic_types", True):
         # the whole column x is integer-typed in this run (a uint8 image channel, an int16 ADC count, a Python int id)
